@@ -1,6 +1,6 @@
 SPECIFICATION Spec
 CONSTANTS
-  Events <- EventsX
+  Events <- EventsXS
   MaxLen = 8
   MaxRuns = 2
   DropExists = TRUE
